@@ -183,3 +183,94 @@ def events_oracle(w):
                 probs.append("%s: Write handler ran after publication" % tag)
     asyncio.run(main())
     return {"reproduced": bool(probs), "detail": "; ".join(probs[:3]) or "event contract holds on the native scenarios"}
+
+
+@kind("driver.inheritance")
+def inheritance(w):
+    from indi.device import Driver, properties
+
+    def g(n):
+        return properties.Group(n, vectors={n.lower(): properties.TextVector("V" + n, elements=dict(e=properties.Text("E")))})
+
+    class A(Driver):
+        name = "a"
+        ga = g("GA")
+
+    class B(A):
+        gb = g("GB")
+
+    class C(B):
+        gc = g("GC")
+    got = sorted(C()._vectors)
+    return {"reproduced": got != ["VGA", "VGB", "VGC"], "detail": "C(B(A(Driver))) has properties %r" % (got,)}
+
+
+@kind("driver.publish")
+def publish(w):
+    """C07 natively: a driver with one property of every kind (numbers in several formats, set and unset
+    BLOBs, enabled and disabled elements): every definition and update it emits must be read back unchanged by
+    the library's own parser, and getProperties must be answered with exactly the definitions asked for."""
+    from indi.device import Driver, properties, values
+    from indi.routing import Router, Client
+    from indi import message as M
+    from indi.message import IndiMessage
+
+    class Dev(Driver):
+        name = "DEV"
+        main = properties.Group("MAIN", vectors=dict(
+            text=properties.TextVector("TEXT", elements=dict(a=properties.Text("A", default="x"), b=properties.Text("B", default="y", enabled=False))),
+            number=properties.NumberVector("NUMBER", elements=dict(
+                n=properties.Number("N", default=1.5), d=properties.Number("D", default=3, format="%d"),
+                s=properties.Number("S", default=-0.25, format="%.3m"), t=properties.Number("T", default=12.999999, format="%.6m"),
+                u=properties.Number("U", default=5.5, format="%.9m"))),
+            switch=properties.SwitchVector("SWITCH", rule="OneOfMany", default_on="A", elements=dict(a=properties.Switch("A"), b=properties.Switch("B"))),
+            blob=properties.BLOBVector("BLOB", elements=dict(b=properties.BLOB("B"))),
+            light=properties.LightVector("LIGHT", elements=dict(l=properties.Light("L"))),
+            off=properties.TextVector("OFF", enabled=False, elements=dict(a=properties.Text("A"))),
+        ))
+
+    class Rec(Client):
+        def __init__(self):
+            self.got = []
+
+        def message_from_device(self, m):
+            self.got.append(m)
+    r = Router()
+    c = Rec()
+    r.register_client(c)
+    d = Dev(router=r)
+    probs = []
+
+    def roundtrip_all(tag):
+        for m in c.got:
+            try:
+                back = IndiMessage.from_string(m.to_string())
+            except Exception as e:
+                probs.append("%s: own parser rejects %s(%s): %r" % (tag, m.__class__.__name__, getattr(m, "name", None), e))
+                continue
+            if back.to_string() != m.to_string():
+                probs.append("%s: %s not read back unchanged" % (tag, m.__class__.__name__))
+        del c.got[:]
+    r.process_message(M.GetProperties(version="1.7"), sender=c)
+    defs = [m for m in c.got if isinstance(m, M.DefVector)]
+    if sorted(m.name for m in defs) != ["BLOB", "LIGHT", "NUMBER", "SWITCH", "TEXT"]:
+        probs.append("getProperties defined %r" % sorted(m.name for m in defs))
+    for m in defs:
+        if m.name == "TEXT" and [ch.name for ch in m.children] != ["A"]:
+            probs.append("disabled element listed: %r" % [ch.name for ch in m.children])
+    roundtrip_all("getProperties")
+    r.process_message(M.GetProperties(version="1.7", device="DEV", name="NUMBER"), sender=c)
+    if [m.name for m in c.got if isinstance(m, M.DefVector)] != ["NUMBER"]:
+        probs.append("named getProperties answered with %r" % [getattr(m, "name", None) for m in c.got])
+    del c.got[:]
+    for dev, name in (("DEV", "NOPE"), ("OTHER", None), ("OTHER", "TEXT")):
+        r.process_message(M.GetProperties(version="1.7", device=dev, name=name), sender=c)
+        if any(isinstance(m, M.DefVector) for m in c.got):
+            probs.append("getProperties(device=%r, name=%r) elicited a definition" % (dev, name))
+        del c.got[:]
+    d.main.text.a.value = "z"
+    d.main.number.s.value = 5.9999
+    d.main.blob.b.value = values.BLOB(b"abc", ".bin")
+    d.main.switch.b.bool_value = True
+    roundtrip_all("updates")
+    return {"reproduced": bool(probs), "detail": "; ".join(probs[:4]) or "all emitted messages are read back unchanged; getProperties answered exactly"}
